@@ -109,9 +109,9 @@ fn first_pass(l: usize, s: u16) {
     set_pos(SRC, c);
     let pdu = send_send(&mut t, &ch);
     let want_len = if l - c < s as usize { l - c } else { s as usize };
-    match pdu {
+    match &pdu {
         Some((dest, PDU { header, payload })) => {
-            assert!(dest == VariableID::from(DST_ID));
+            assert!(*dest == VariableID::from(DST_ID));
             check_header(&header, &payload, PDUType::FileData);
             match &payload {
                 PDUPayload::FileData(FileDataPDU::Unsegmented(d)) => {
@@ -129,6 +129,7 @@ fn first_pass(l: usize, s: u16) {
         }
         None => assert!(false, "file data expected"),
     }
+    forget(pdu);
     assert!(file_pos(SRC) == c + want_len, "cursor advanced by what was sent");
     if c + want_len == l {
         assert!(t.verif_send_state() == VSendState::SendEof, "end of file reached: EOF next");
@@ -171,7 +172,7 @@ fn retransmit(l: usize, s: u16, state: VSendState) {
     let pdu = send_send(&mut t, &ch);
     let lo = if (a as usize) < l { a as usize } else { l };
     let hi = if (b as usize) < l { b as usize } else { l };
-    match pdu {
+    match &pdu {
         Some((_, PDU { header, payload })) => {
             check_header(&header, &payload, PDUType::FileData);
             match &payload {
@@ -190,6 +191,7 @@ fn retransmit(l: usize, s: u16, state: VSendState) {
         }
         None => assert!(false, "retransmission expected"),
     }
+    forget(pdu);
     assert!(t.verif_naks().is_empty(), "request consumed");
     assert!(file_pos(SRC) == c, "first-pass cursor restored");
     assert!(t.verif_progress() == before, "retransmission does not change the progress");
@@ -212,9 +214,10 @@ th!(c07_q_metadata_pdu, 8, {
     let ck = if kani::any() { ChecksumType::Modular } else { ChecksumType::Null };
     let p = send_parts(config(TransmissionMode::Acknowledged), metadata(true, size, closure, ck, vec![]), &ch);
     let mut t = SendTransaction::verif_from_parts(p);
-    match send_send(&mut t, &ch) {
+    let out2 = send_send(&mut t, &ch);
+    match &out2 {
         Some((dest, PDU { header, payload })) => {
-            assert!(dest == VariableID::from(DST_ID));
+            assert!(*dest == VariableID::from(DST_ID));
             check_header(&header, &payload, PDUType::FileDirective);
             match &payload {
                 PDUPayload::Directive(Operations::Metadata(m)) => {
@@ -228,6 +231,7 @@ th!(c07_q_metadata_pdu, 8, {
         }
         None => assert!(false, "metadata PDU expected"),
     }
+    forget(out2);
     assert!(t.verif_send_state() == VSendState::SendData);
     kani::cover!(true, "end");
     forget(t);
